@@ -40,14 +40,35 @@ def rate_fn(r):
     return lambda e, n, t: c * (1.0 + a * e + b * n + d * t)
 
 
-def build(case, log=None, keys=None):
-    """The real scene, in its final placement.  `log` collects (species index, energy, density,
-    temperature, returned value) for every stopping-rate evaluation, `keys` every lookup key."""
-    from raysect.core import World, Node, Vector3D
-    from cherab.core import Beam, Plasma, Species
-    from cherab.core.atomic import AtomicData, BeamStoppingRate, elements
+CONFIG_FIELDS = ["element", "energy", "power", "sigma", "div_x", "div_y", "length", "step", "clamp", "clamp_sigma",
+                 "att_via_setters", "att_route", "beam_ops", "plasma_ops", "beam_parent_ops", "species", "argforms",
+                 "species_route"]
+
+
+def _form(case, name, v):
+    """Unusual but valid argument forms (class "argforms"): Python ints, numpy float64/float32/integer scalars, 0/1 for the
+    clamp flag -- only where the value is exactly representable in that form, so the configuration is unchanged."""
+    if not case.get("argforms"):
+        return v
+    if isinstance(v, bool):
+        return int(v)
+    f = float(v)
+    if f.is_integer() and abs(f) < 2 ** 31:
+        return {"energy": int(f), "power": np.int64(int(f)), "div_x": int(f), "clamp_sigma": np.int32(int(f)),
+                "length": int(f)}.get(name, np.float64(f))
+    if float(np.float32(f)) == f and name in ("sigma", "div_y", "step", "length", "x", "z"):
+        return np.float32(f)
+    return np.float64(f)
+
+
+def _probe_args(case, x, y, z):
+    return _form(case, "x", x), _form(case, "y", y), _form(case, "z", z)
+
+
+def _stubs(log, keys):
+    from raysect.core import Vector3D
+    from cherab.core.atomic import AtomicData, BeamStoppingRate
     from cherab.core.distribution import DistributionFunction
-    from cherab.core.model import SingleRayAttenuator
 
     class Dist(DistributionFunction):
         def __init__(self, s):
@@ -74,43 +95,195 @@ def build(case, log=None, keys=None):
                 log.append((self.idx, e, n, t, v))
             return v
 
-    table = {}
-    for i, s in enumerate(case["species"]):
-        table[(s["element"], s["charge"])] = Rate(i, rate_fn(s["rate"]))
-
     class Data(AtomicData):
+        def __init__(self, species):
+            super().__init__()
+            self.table = {(s["element"], s["charge"]): Rate(i, rate_fn(s["rate"])) for i, s in enumerate(species)}
+
         def beam_stopping_rate(self, beam_ion, plasma_ion, charge):
             if keys is not None:
                 keys.append([beam_ion.name, plasma_ion.name, int(charge)])
-            return table[(plasma_ion.name, int(charge))]
+            return self.table[(plasma_ion.name, int(charge))]
+    return Dist, Data
 
+
+def _new_attenuator(cfg, beam=None, plasma=None, data=None):
+    """every public route to a configured SingleRayAttenuator: constructor arguments, property setters, defaults,
+    constructor with explicit beam/plasma/atomic_data"""
+    from cherab.core.model import SingleRayAttenuator
+    step, clamp, cs = _form(cfg, "step", cfg["step"]), _form(cfg, "clamp", cfg["clamp"]), _form(cfg, "clamp_sigma", cfg["clamp_sigma"])
+    route = cfg.get("att_route") or ("setters" if cfg.get("att_via_setters") else "constructor")
+    if route == "defaults":
+        # the case was generated with step = 0.01, clamp_sigma = 5, clamp_to_zero = False: the documented defaults
+        return SingleRayAttenuator()
+    if route == "setters":
+        att = SingleRayAttenuator(clamp_to_zero=clamp)          # clamp_to_zero is constructor-only
+        att.step = step
+        att.clamp_sigma = cs
+        return att
+    if route == "explicit":
+        return SingleRayAttenuator(step, clamp, cs, beam, plasma, data)     # positional, with beam/plasma/atomic data
+    return SingleRayAttenuator(step=step, clamp_to_zero=clamp, clamp_sigma=cs)
+
+
+def _species_objects(cfg, Dist):
+    from cherab.core import Species
+    from cherab.core.atomic import elements
+    return [Species(getattr(elements, s["element"]), s["charge"], Dist(s)) for s in cfg["species"]]
+
+
+def _fresh(cfg, log=None, keys=None):
+    """a freshly built scene for the flat configuration cfg"""
+    from raysect.core import World, Node
+    from cherab.core import Beam, Plasma
+    from cherab.core.atomic import elements
+    Dist, Data = _stubs(log, keys)
     world = World()
-    plasma = Plasma(parent=world, transform=_transform(case["plasma_ops"]))
-    data = Data()
+    plasma = Plasma(parent=world, transform=_transform(cfg["plasma_ops"]))
+    data = Data(cfg["species"])
     plasma.atomic_data = data
-    for s in case["species"]:
-        plasma.composition.add(Species(getattr(elements, s["element"]), s["charge"], Dist(s)))
+    sp = _species_objects(cfg, Dist)
+    if cfg.get("species_route") == "set":
+        plasma.composition.set(sp)
+    else:
+        for o in sp:
+            plasma.composition.add(o)
     parent = world
-    if case["beam_parent_ops"]:
-        parent = Node(parent=world, transform=_transform(case["beam_parent_ops"]))
-    beam = Beam(parent=parent, transform=_transform(case["beam_ops"]))
+    if cfg["beam_parent_ops"]:
+        parent = Node(parent=world, transform=_transform(cfg["beam_parent_ops"]))
+    beam = Beam(parent=parent, transform=_transform(cfg["beam_ops"]))
     beam.atomic_data = data
     beam.plasma = plasma
-    if case.get("att_via_setters"):
-        # same final configuration reached through the property setters (clamp_to_zero is constructor-only)
-        att = SingleRayAttenuator(clamp_to_zero=case["clamp"])
-        att.step = case["step"]
-        att.clamp_sigma = case["clamp_sigma"]
-        beam.attenuator = att
+    beam.attenuator = _new_attenuator(cfg, beam, plasma, data)
+    beam.energy = _form(cfg, "energy", cfg["energy"])
+    beam.power = _form(cfg, "power", cfg["power"])
+    beam.element = getattr(elements, cfg["element"])
+    beam.sigma = _form(cfg, "sigma", cfg["sigma"])
+    beam.divergence_x = _form(cfg, "div_x", cfg["div_x"])
+    beam.divergence_y = _form(cfg, "div_y", cfg["div_y"])
+    beam.length = _form(cfg, "length", cfg["length"])
+    return beam, plasma
+
+
+INVALID = {"energy": [-1.0], "power": [-1.0], "sigma": [0.0, -0.5], "divergence_x": [-1.0], "divergence_y": [-0.25],
+           "length": [0.0, -2.0]}
+
+
+def _mutate(beam, plasma, old, new, log, keys, notes):
+    """Bring the LIVE scene from configuration `old` to configuration `new` through the public mutators only:
+    every beam / attenuator setter (also re-assigning unchanged values), rejected values in between (<= 0 / < 0 must raise
+    ValueError and leave the state alone), attenuator replacement, node transforms and re-parenting, composition
+    set / clear+add / add (replacement of a species with the same element and charge), a new atomic data source."""
+    from raysect.core import Node
+    from cherab.core.atomic import elements
+    Dist, Data = _stubs(log, keys)
+    for attr, key in (("energy", "energy"), ("power", "power"), ("sigma", "sigma"), ("divergence_x", "div_x"),
+                      ("divergence_y", "div_y"), ("length", "length")):
+        for bad in INVALID[attr]:
+            try:
+                setattr(beam, attr, bad)
+                notes.append("beam.%s = %r was accepted" % (attr, bad))
+            except ValueError:
+                pass
+        setattr(beam, attr, _form(new, key, new[key]))          # also when unchanged: re-assignment of the same value
+    beam.element = getattr(elements, new["element"])
+    # attenuator: replaced when the constructor-only flag changes (or on request), otherwise driven through its setters
+    att = beam.attenuator
+    if old["clamp"] != new["clamp"] or new.get("att_route") in ("explicit", "defaults") or old.get("att_route") == "defaults":
+        beam.attenuator = _new_attenuator(new, beam, plasma, beam.atomic_data)
     else:
-        beam.attenuator = SingleRayAttenuator(step=case["step"], clamp_to_zero=case["clamp"], clamp_sigma=case["clamp_sigma"])
-    beam.energy = case["energy"]
-    beam.power = case["power"]
-    beam.element = getattr(elements, case["element"])
-    beam.sigma = case["sigma"]
-    beam.divergence_x = case["div_x"]
-    beam.divergence_y = case["div_y"]
-    beam.length = case["length"]
+        for bad in (0.0, -1.0):
+            for attr in ("step", "clamp_sigma"):
+                try:
+                    setattr(att, attr, bad)
+                    notes.append("attenuator.%s = %r was accepted" % (attr, bad))
+                except ValueError:
+                    pass
+        att.step = _form(new, "step", new["step"])
+        att.clamp_sigma = _form(new, "clamp_sigma", new["clamp_sigma"])
+    # placement
+    if old["plasma_ops"] != new["plasma_ops"]:
+        plasma.transform = _transform(new["plasma_ops"])
+    if old["beam_parent_ops"] != new["beam_parent_ops"]:
+        world = plasma.parent
+        beam.parent = Node(parent=world, transform=_transform(new["beam_parent_ops"])) if new["beam_parent_ops"] else world
+    if old["beam_ops"] != new["beam_ops"] or old["beam_parent_ops"] != new["beam_parent_ops"]:
+        beam.transform = _transform(new["beam_ops"])
+    # species and rates
+    if old["species"] != new["species"]:
+        data = Data(new["species"])
+        same_keys = [(s["element"], s["charge"]) for s in old["species"]] == [(s["element"], s["charge"]) for s in new["species"]]
+        sp = _species_objects(new, Dist)
+        route = new.get("species_route") or "set"
+        if route == "add" and same_keys:
+            for o in sp:
+                plasma.composition.add(o)          # replaces the species with the same element and charge
+        elif route == "set":
+            plasma.composition.set(sp)
+        else:
+            plasma.composition.clear()
+            for o in sp:
+                plasma.composition.add(o)
+        plasma.atomic_data = data
+        beam.atomic_data = data
+
+
+def _step_probes(cfg):
+    L, sg = cfg["length"], cfg["sigma"]
+    return [(0.0, 0.0, 0.0), (0.0, 0.0, 0.5 * L), (sg, -0.5 * sg, L / 3.0), (0.0, 0.0, L), (0.0, 0.0, 1.5 * L), (2 * sg, sg, 0.25 * L)]
+
+
+def _observe(beam, cfg):
+    """what a user sees of the beam in configuration cfg: densities and directions at fixed points (exceptions by name)"""
+    out = []
+    for (x, y, z) in _step_probes(cfg):
+        for fn in (beam.density, beam.direction):
+            try:
+                v = fn(x, y, z)
+                out.append(repr(v) if fn == beam.direction else float(v).hex())
+            except Exception as e:                               # noqa: BLE001 (compared, never swallowed)
+                out.append("raise " + type(e).__name__)
+    return out
+
+
+def flat(cfg):
+    return {k: cfg[k] for k in CONFIG_FIELDS if k in cfg}
+
+
+def build(case, log=None, keys=None, trace=None):
+    """The real scene in the configuration of `case`.  Without case["history"] it is freshly built.  With a history
+    [c0, c1, ...] ONE live scene is built for c0, observed, mutated to c1, observed, ... and finally mutated to `case`
+    itself; `trace` (a list) receives every step at which the live object is observed to differ from a freshly built
+    object of the same configuration.  `log` / `keys` collect the stopping-rate evaluations / lookups made AFTER the
+    last mutation."""
+    hist = case.get("history")
+    if not hist:
+        return _fresh(case, log, keys)
+    chain = [flat(c) for c in hist] + [flat(case)]
+    beam, plasma = _fresh(chain[0], log, keys)
+    notes = []
+    for k, cfg in enumerate(chain):
+        if k > 0:
+            _mutate(beam, plasma, chain[k - 1], cfg, log, keys, notes)
+        if k < len(chain) - 1 or trace is not None:
+            live = _observe(beam, cfg)
+            again = _observe(beam, cfg)                           # second use of the same object
+            if trace is not None:
+                ref = _observe(_fresh(cfg)[0], cfg)
+                if live != ref or again != ref:
+                    bad = [i for i, (a, b, c2) in enumerate(zip(live, again, ref)) if a != c2 or b != c2]
+                    trace.append({"step": k, "configuration": cfg, "previous": chain[k - 1] if k else None,
+                                  "probe": _step_probes(cfg)[bad[0] // 2], "live": live[bad[0]], "second_call": again[bad[0]],
+                                  "fresh": ref[bad[0]]})
+    if trace is not None:
+        for n_ in notes:
+            trace.append({"step": "setter", "note": n_})
+    if log is not None:
+        del log[:]
+    if keys is not None:
+        del keys[:]
+    # the caches were populated by the observation above: a last no-op re-assignment must invalidate them again
+    beam.energy = _form(case, "energy", case["energy"])
     return beam, plasma
 
 
